@@ -23,7 +23,10 @@ RULE = (
     "mirrored key values and NULL components, both directions, every strategy (model: key-tuple extraction of "
     "selectin).  Histories: tables of the walk pre-loaded into the Session (plainly, or with every other "
     "relationship loaded) before the query, incl. a unidirectional chain x->y->z whose middle objects have "
-    "nothing unloaded but the walk's collection (graph compared with model and meaning; plan not compared)"
+    "nothing unloaded but the walk's collection (graph compared with model and meaning; plan not compared).  "
+    "Polymorphic many-to-one: a joined-table hierarchy with an instantiable base, relationships targeting the "
+    "base / a subclass / a sub-subclass through one foreign key, referenced rows of any class, some already in "
+    "the Session (model: the identity-map shortcut of lazy/immediate loading)"
 )
 TRUSTED = [
     "hand-written Gallina transcription of the statement construction and row processing of "
@@ -64,6 +67,8 @@ ANCHORS = [
     ("lib/sqlalchemy/orm/strategies.py", "_JoinedLoader._create_scalar_loader"),
     ("lib/sqlalchemy/orm/strategies.py", "_ImmediateLoader._load_for_path"),
     ("lib/sqlalchemy/orm/loading.py", "_PostLoad.invoke"),
+    ("lib/sqlalchemy/orm/loading.py", "get_from_identity"),
+    ("lib/sqlalchemy/orm/strategies.py", "_LazyLoader._load_for_state"),
 ]
 
 # ------------------------------------------------------------------------------------------------
@@ -103,6 +108,22 @@ KEYRELS = [
     ("kp", "kba", "kids_ba", 2, [[1, 2], [0, 1]]),  # FOREIGN KEY (pb, pa) REFERENCES kp (b, a)
     ("kq", "kcab", "kids", 3, [[2, 3], [0, 1], [1, 2]]),  # FOREIGN KEY (pc, pa, pb) REFERENCES kq (c, a, b)
 ]
+
+
+# polymorphic family (c["in"][0] == 78): joined-table hierarchy pb (instantiable base) <- pc1, pc2 <- pg; table
+# po with one foreign key to pb and a many-to-one relationship per target class
+POLY_PARENT = [None, 0, 0, 2]  # class -> parent class (0 PB, 1 PC1, 2 PC2, 3 PG)
+POLY_RELS = ["parent", "child1", "child2", "gchild"]  # po.<rel> targets class i
+
+
+def _gen_poly_case(rng):
+    n = rng.randint(1, 6)
+    rows = [[i, rng.choice([0, 0, 1, 2, 2, 3])] for i in range(1, n + 1)]
+    others = [[i, rng.choice([None] + list(range(1, n + 2)))] for i in range(1, rng.randint(2, 6) + 1)]
+    target = rng.choice([0, 1, 2, 2, 3])
+    pre = rng.choice([[], [r[0] for r in rows], [r[0] for r in rows if rng.random() < 0.5]])
+    codes = [LAZY, JOINED, SUBQ, IMM, rng.choice([SEL_DEFAULT, 11, 12])]
+    return {"in": [78, POLY_PARENT, rows, others, target, pre, codes, 0], "kind": "poly"}
 
 
 def _gen_keys_case(rng):
@@ -297,6 +318,10 @@ def gen_cases(rng, tier):
     # values (1,2)/(2,1), NULL components: every strategy, both directions
     for _ in range({"quick": 40, "thorough": 600}[tier]):
         cases.append(_gen_keys_case(rng))
+    # a many-to-one whose target is a subclass (or the instantiable base) of a joined-table hierarchy, the
+    # referenced rows being of any class, with some of them already in the Session as what they are
+    for _ in range({"quick": 40, "thorough": 500}[tier]):
+        cases.append(_gen_poly_case(rng))
     # histories: some tables of the walk are already in the Session (plain SELECT, relationships unloaded)
     # when the query runs; what is loaded must not depend on that.  The plan does (identity map): not compared
     for _ in range({"quick": 30, "thorough": 500}[tier]):
@@ -377,6 +402,8 @@ def gen_cases(rng, tier):
 def nontrivial(c):
     if c["in"][0] == 77:
         return len(c["in"][3]) >= 2 and len(c["in"][4]) >= 2
+    if c["in"][0] == 78:
+        return bool(c["in"][5]) and any(o[1] != [] for o in c["in"][3])
     r0, steps, uq, asgs = c["in"][:4]
     if uq[2] or uq[3] or uq[5] != [] or uq[6] != []:
         return True
@@ -452,7 +479,7 @@ def _setup():
 
     from sqlalchemy import ForeignKeyConstraint
 
-    def build(Base):
+    def build(Base, with_poly=False):
 
         class M(Base):
             __tablename__ = "m"
@@ -563,15 +590,54 @@ def _setup():
             parent = relationship("KQ", back_populates="kids")
             __table_args__ = (ForeignKeyConstraint(["pc", "pa", "pb"], ["kq.c", "kq.a", "kq.b"]),)
 
-        return {"m": M, "p": P, "c": C, "g": G, "d": D, "t": T, "x": X, "y": Y, "z": Z, "kp": KP, "kab": KAB, "kba": KBA, "kq": KQ, "kcab": KCAB}
+        poly = {}
+        if with_poly:
+            from sqlalchemy import String
+
+            class PB(Base):
+                __tablename__ = "pb"
+                id = Column(Integer, primary_key=True)
+                type = Column(String(10), nullable=False)
+                __mapper_args__ = {"polymorphic_on": type, "polymorphic_identity": "c0"}
+
+            class PC1(PB):
+                __tablename__ = "pc1"
+                id = Column(Integer, ForeignKey("pb.id"), primary_key=True)
+                __mapper_args__ = {"polymorphic_identity": "c1"}
+
+            class PC2(PB):
+                __tablename__ = "pc2"
+                id = Column(Integer, ForeignKey("pb.id"), primary_key=True)
+                __mapper_args__ = {"polymorphic_identity": "c2"}
+
+            class PG(PC2):
+                __tablename__ = "pg"
+                id = Column(Integer, ForeignKey("pc2.id"), primary_key=True)
+                __mapper_args__ = {"polymorphic_identity": "c3"}
+
+            class PO(Base):
+                __tablename__ = "po"
+                id = Column(Integer, primary_key=True)
+                fk = Column(Integer, ForeignKey("pb.id"))
+                parent = relationship(PB)
+                child1 = relationship(PC1, viewonly=True, primaryjoin="PO.fk == PC1.id", foreign_keys="PO.fk")
+                child2 = relationship(PC2, viewonly=True, primaryjoin="PO.fk == PC2.id", foreign_keys="PO.fk")
+                gchild = relationship(PG, viewonly=True, primaryjoin="PO.fk == PG.id", foreign_keys="PO.fk")
+
+            poly = {"pb": PB, "pc1": PC1, "pc2": PC2, "pg": PG, "po": PO}
+
+        return {**poly, "m": M, "p": P, "c": C, "g": G, "d": D, "t": T, "x": X, "y": Y, "z": Z, "kp": KP, "kab": KAB, "kba": KBA, "kq": KQ, "kcab": KCAB}
 
     # two mappings of the same tables: the plain one (no deferred column: an object already in the Session has
     # NOTHING unloaded but its relationships) and, for the column-option family, one with the payload columns
     BaseCols = declarative_base(cls=Cols)
     classes_cols = build(BaseCols)
-    classes = build(declarative_base())
+    BasePlain = declarative_base()
+    classes = build(BasePlain, with_poly=True)
     eng = create_engine("sqlite://", poolclass=StaticPool, connect_args={"check_same_thread": False})
     BaseCols.metadata.create_all(eng)
+    for t in ("pb", "pc1", "pc2", "pg", "po"):
+        BasePlain.metadata.tables[t].create(eng)
     log = []
 
     @event.listens_for(eng, "before_cursor_execute")
@@ -937,6 +1003,72 @@ def _impl_keys(env, c):
     return [res, first]
 
 
+def _impl_poly(env, c):
+    env["classes"] = K = env["classes_plain"]
+    from sqlalchemy import delete, insert, select
+    from sqlalchemy.orm import Session, immediateload, joinedload, lazyload, selectinload, subqueryload
+
+    _, parents, rows, others, target, pre, codes, _ = c["in"]
+    env["loaded"] = None
+    tabs = ["pb", "pc1", "pc2", "pg"]
+
+    def lineage(cl):
+        out = []
+        while cl != []:
+            out.append(cl)
+            cl = parents[cl]
+        return out
+
+    with env["eng"].begin() as conn:
+        for t in ("po", "pg", "pc2", "pc1", "pb"):
+            conn.execute(delete(K[t].__table__))
+        for i, cl in rows:
+            conn.execute(insert(K["pb"].__table__), {"id": i, "type": "c%d" % cl})
+            for a in reversed(lineage(cl)):
+                if a != 0:
+                    conn.execute(insert(K[tabs[a]].__table__), {"id": i})
+        conn.execute(insert(K["po"].__table__), [{"id": i, "fk": None if fk == [] else fk} for i, fk in others])
+    PB, PO = K["pb"], K["po"]
+    cls_code = {K[t]: i for i, t in enumerate(tabs)}
+    attr = getattr(PO, POLY_RELS[target])
+    fns = {LAZY: lazyload, JOINED: joinedload, SUBQ: subqueryload, IMM: immediateload}
+    res = []
+    first = None
+    for code in codes:
+        opt = fns[code](attr) if code in fns else selectinload(attr, **({} if code == SEL_DEFAULT else {"chunksize": code - 10}))
+        try:
+            with Session(env["eng"]) as s:
+                keep = s.scalars(select(PB).where(PB.id.in_(pre)).order_by(PB.id)).all() if pre else []
+                objs = s.scalars(select(PO).order_by(PO.id).options(opt)).unique().all()
+                snap = []
+                for o in objs:
+                    v = getattr(o, POLY_RELS[target])
+                    snap.append([o.id, [] if v is None else [cls_code[type(v)], v.id]])
+        except Exception as ex:
+            res.append([0, 1 + EXC_NAMES.index(type(ex).__name__) if type(ex).__name__ in EXC_NAMES else 1])
+            continue
+        if first is None:
+            first = snap
+        res.append([hash_tree(snap), 0])
+    if first is None or first == _meaning(c):
+        first = []
+    return [res, first]
+
+
+def _meaning_poly(c):
+    _, parents, rows, others, target, pre, codes, _ = c["in"]
+
+    def isa(cl, tg):
+        while cl != []:
+            if cl == tg:
+                return True
+            cl = parents[cl]
+        return False
+
+    by_id = {i: cl for i, cl in rows}
+    return [[i, [by_id[fk], fk] if fk != [] and fk in by_id and isa(by_id[fk], target) else []] for i, fk in others]
+
+
 def _meaning_keys(c):
     _, pairs, pk, prow, crow, direction, codes, ri = c["in"]
 
@@ -952,6 +1084,8 @@ def impl(c):
     env = _setup()
     if c["in"][0] == 77:
         return _impl_keys(env, c)
+    if c["in"][0] == 78:
+        return _impl_poly(env, c)
     rels, lvl_of, side = _decode(c)
     r0, steps, uq, asgs, (cmp_plan,), _ = c["in"][:6]
     colopts = c["in"][6] if len(c["in"]) > 6 else None
@@ -982,6 +1116,8 @@ def impl(c):
 def _meaning(c):
     if c["in"][0] == 77:
         return _meaning_keys(c)
+    if c["in"][0] == 78:
+        return _meaning_poly(c)
     r0, steps, uq = c["in"][:3]
     colopts = c["in"][6] if len(c["in"]) > 6 else None
     pk, k, distinct, group, order, lim, off, js = uq
@@ -1052,7 +1188,7 @@ def effective(asg):
 
 def classify(c, asg, raised):
     """known-defect class of one failing assignment, or None"""
-    if c["in"][0] == 77:
+    if c["in"][0] in (77, 78):
         return None
     r0, steps, uq = c["in"][:3]
     colopts = c["in"][6] if len(c["in"]) > 6 else None
@@ -1079,7 +1215,7 @@ def oracle(c, obs):
     want = _meaning(c)
     hw = hash_tree(want)
     res, first = obs
-    asgs = c["in"][3] if c["in"][0] != 77 else [[x] for x in c["in"][6]]
+    asgs = c["in"][3] if c["in"][0] not in (77, 78) else [[x] for x in c["in"][6]]
     groups = {}
     for a, (gh, x) in zip(asgs, res):
         if gh != hw:
@@ -1262,7 +1398,7 @@ LEVEL_NOTE = (
     "root queries with filter / duplicating JOIN / EXISTS, DISTINCT, GROUP BY, total ORDER BY, LIMIT, OFFSET, "
     "under Result.unique().  Column loader options (defer/undefer/load_only/with_expression, untriggered "
     "raiseload) are NOT modelled: they are checked only by the direct oracle on the implementation (two of the "
-    "three known findings come from there).  NOT covered at all: noload, yield_per, inheritance loaders (C42), many-to-many/secondary, composite keys, "
+    "three known findings come from there).  NOT covered at all: noload, yield_per, inheritance loaders (C42; here only a many-to-one to a polymorphic target with the lazy loader's identity-map shortcut), many-to-many/secondary, composite keys, "
     "(composite keys: only the key-tuple grouping of selectin is modelled, a single relationship), relationships or root queries without a total order, sibling relationships loaded in the same query "
     "(paths only), populate_existing, PostgreSQL/MariaDB (SQLite only; DISTINCT "
     "ON exists only as a flag of _should_nest_selectable).  Trusted: Coq kernel; the hand transcription "
